@@ -560,6 +560,31 @@ pub fn neighbourhood(s: &str) -> Vec<String> {
         out.push(format!("{}{}{}", pad, s, pad));
     }
     out.push(format!("{}{}", s, s));
+    // numbers inside a name written differently or congruent modulo a power of two: leading zeros,
+    // a sign, +256, +65536, +2^32 (a parser that reads the digits must not accept these)
+    let digits: Vec<(usize, usize)> = {
+        let mut v = vec![];
+        let mut i = 0;
+        while i < b.len() {
+            if b[i].is_ascii_digit() {
+                let st = i;
+                while i < b.len() && b[i].is_ascii_digit() {
+                    i += 1;
+                }
+                v.push((st, i));
+            } else {
+                i += 1;
+            }
+        }
+        v
+    };
+    for (st, en) in digits {
+        if let Ok(n) = s[st..en].parse::<u64>() {
+            for alt in [format!("0{}", n), format!("00{}", n), format!("+{}", n), format!("{}", n + 256), format!("{}", n + 512), format!("{}", n + 65536), format!("{}", n + (1u64 << 32)), format!("{}.0", n)] {
+                out.push(format!("{}{}{}", &s[..st], alt, &s[en..]));
+            }
+        }
+    }
     out
 }
 
